@@ -138,4 +138,26 @@ structure Arm (α : Type) where
   out : α
   deriving DecidableEq, Repr
 
+/-! ### round 8c: the statement order of `Pin` / `Unpin` -/
+
+/-- one statement of `Connector.Pin` / `Connector.Unpin` as the conversation model interprets it
+(tracing, logging, stats, context plumbing and request-path locals are left out by the translator) -/
+inductive SeqStmt
+  | lookup (arg : String) (keepErr : Bool)   -- `pinStatus, err|_ := ipfs.PinLsCid(ctx, arg)`
+  | ifErrReturn (retErr : Bool)              -- `if err != nil { return err|nil }`
+  | ifPinnedReturnNil (depth : String)       -- `if pinStatus.IsPinned(depth) { return nil }`
+  | ifPinnedReturnUpdate (depth src dst : String)  -- `if pinStatus.IsPinned(depth) { return ipfs.pinUpdate(ctx, src, dst) }`
+  | deferMetric                              -- `defer ipfs.updateInformerMetric(ctx)`
+  | origins (cap : Nat)                      -- background swarm/connect to at most `cap` origins, errors ignored
+  | ifSrc (n : Nat)                          -- `if from := pin.PinUpdate; from != cid.Undef {` the next n statements `}`
+  | watchdog                                 -- the goroutine that cancels a request without progress
+  | progress (cid depth : String)            -- `err = ipfs.pinProgress(ctx, cid, depth, outPins)`
+  | returnNil
+  | returnErr
+  | ifDisabledReturnErr                      -- `if ipfs.config.UnpinDisable { return errors.New(…) }`
+  | post (endpoint : String)                 -- `_, err := ipfs.postCtx(ctx, <path of endpoint>, "", nil)`
+  | ifErrTolerate (texts : List String)      -- `if err != nil { return err unless it is an ipfsError with one of texts; return nil }`
+  | unknown (text : String)
+  deriving DecidableEq, Repr
+
 end CV.C16.Dec
